@@ -87,13 +87,19 @@ CHECKS = {
 }
 NOT_APPLICABLE = {p: 'check under construction in this round (specification planned in DESIGN.md section 4); not yet claimed' for p in ['C%02d' % i for i in range(1, 21)] if p not in CHECKS}
 
+EXTRA_ENGINES = [
+ {"name": "EngineLifecycle", "path": "/verif/spec/EngineLifecycle.tla", "serves_properties": ["C01", "C02", "C12"],
+  "kind_free_text": "growth beyond the listed properties: TLA+ specification of the real Engine launch/termination/emission pipeline (run, kill at every point, launch failure, task exit, restart, shutdown, snapshot overtaking), checked with TLC and bound both ways to the real experiment.runtime.engine.Engine on a deterministic rx world; also contract-tests harness/ctl.py's FakeEngine (the trust base of C01/C02) against the real Engine. Run with ./check G01 --tier quick|thorough (evidence/G01.json); not a property check."},
+]
+
+
 def main():
     m = {"version": 1,
          "setup_cmd": "mkdir -p /verif/out /verif/evidence && /venv/bin/python -c 'import experiment, jsonschema, yaml' && java -cp /opt/veriftools/tla/tla2tools.jar tlc2.TLC -h >/dev/null 2>&1; true",
          "hooks": {"guard": "ST4SD_RUNTIME_CORE_VERIF", "enable": "no source hooks exist: observation/control is done from the harness process by replacing module attributes (DESIGN.md 3.8); nothing to enable",
                    "baseline_off_cmd": BASE, "source_commits": [], "add_only": True},
          "engines": [], "checks": [], "not_applicable": [],
-         "notes": "All checks: ./check <id> --tier quick|thorough; exit 0 held / 1 VIOLATION / 2 machinery failure. See DESIGN.md."}
+         "notes": "All checks: ./check <id> --tier quick|thorough; exit 0 held / 1 VIOLATION / 2 machinery failure. See DESIGN.md. Growth checks beyond the listed properties: ./check G01 (EngineLifecycle), ./check G02 (Scheduler extensions) when present."}
     engines = {}
     for pid in sorted(CHECKS):
         c = CHECKS[pid]
@@ -104,6 +110,8 @@ def main():
                             "level_note": c["note"], "technique": c["technique"]})
     for e, pids in sorted(engines.items()):
         m["engines"].append({"name": e, "path": "/verif/spec/%s.tla" % e, "serves_properties": pids, "kind_free_text": "TLA+ specification checked with TLC, bound to the implementation by harness/checks/*.py"})
+    for e in EXTRA_ENGINES:
+        m["engines"].append(e)
     for pid in sorted(NOT_APPLICABLE):
         m["not_applicable"].append({"property_id": pid, "reason": NOT_APPLICABLE[pid]})
     with open(os.path.join(HERE, "MANIFEST.json"), "w") as f:
